@@ -455,7 +455,7 @@ def run(ck):
                        'expressions are abstracted to the names they read; tuple patterns to the names they bind']
     ok, _ = ck.build_static(['Props/C15.v', 'Cases/C15Cases.v'])
     if ok:
-        names = re.findall(r'Print Assumptions\s+([A-Za-z0-9_]+)', (ck.dir.parent.parent / 'coq' / 'Props' / 'C15.v').read_text())
+        names = re.findall(r'Print Assumptions\s+([A-Za-z0-9_]+)', (__import__('harness.common', fromlist=['COQ']).COQ / 'Props' / 'C15.v').read_text())
         ck.props('Props/C15.v', closed=tuple(names))
     guide_says(ck)
 
